@@ -58,28 +58,40 @@ def cont_docs(*trees):
 
 
 def sdump(a, cont=()):
-    """structure dump: ctx reset to Load, continuation-line indentation of string constants removed; docstring-position strings
-    whose blank-collapsed value is in `cont` (see cont_docs) are compared with their runs of blanks collapsed."""
+    """structure dump: ctx reset to Load; strings in docstring position (expression statements) are compared modulo the documented
+    re-indentation of docstring lines: blanks at the start of their continuation lines are dropped, and those whose blank-collapsed
+    value is in `cont` (see cont_docs) have their runs of blanks collapsed. Every other string is compared exactly."""
     d = ast.dump(a)
-    if cont:
-        for n in ast.walk(a):
-            if isinstance(n, ast.Expr) and isinstance(v := n.value, ast.Constant) and isinstance(v.value, str) and \
-                    (c := _WS.sub(' ', v.value)) in cont and c != v.value:
+    for n in ast.walk(a) if isinstance(a, ast.AST) else ():
+        if isinstance(n, ast.Expr) and isinstance(v := n.value, ast.Constant) and isinstance(v.value, str):
+            c = v.value
+            if cont and (cc := _WS.sub(' ', c)) in cont:
+                c = cc
+            c = _DOCV.sub('\n', c)
+            if c != v.value:
                 d = d.replace(f'Expr(value=Constant(value={v.value!r}', f'Expr(value=Constant(value={c!r}')
-    return _DOC.sub(r'\\n', _CTX.sub('ctx=Load()', d))
+    return _CTX.sub('ctx=Load()', d)
 
 
-def toks(src):
+_DOCV = re.compile(r'\n[ \t]+')
+
+
+def toks(src, stmts=True):
+    """multiset of the significant tokens of `src`; stmts=False: `src` is an expression-like fragment (no docstring positions)"""
     ts = O.tokens(src)
     if ts is None:
         return None
     c = collections.Counter()
-    for t in ts:
+    prev = None
+    for k, t in enumerate(ts):
         if t.type in O.SIG_TOKS and t.string not in SEP:
-            s = t.string
-            if t.type in (tokenize.STRING, tokenize.FSTRING_MIDDLE):
-                s = _DOC.sub(r'\\n', s.replace('\n', '\\n'))
+            s = t.string.replace('\n', '\\n')
+            if stmts and t.type == tokenize.STRING and (prev is None or prev.type in (tokenize.NEWLINE, tokenize.INDENT, tokenize.DEDENT)) and \
+                    (k + 1 == len(ts) or ts[k + 1].type in (tokenize.NEWLINE, tokenize.COMMENT)):
+                s = _DOC.sub(r'\\n', s)  # a string statement (docstring position): lines may be re-indented
             c[s] += 1
+        if t.type not in (tokenize.NL, tokenize.COMMENT):
+            prev = t
     return c
 
 
@@ -227,7 +239,7 @@ def check_extract(fst, pi, src, what, opts, res):
         res.outcomes['C01-after-cut(reported-by-C01)'] += 1
         return
     # conservation: tokens(original) == tokens(remainder) + tokens(piece), comments included
-    t0, t1, t2 = toks(src), toks(rootc.src), toks(cutp.src)
+    t0, t1, t2 = toks(src), toks(rootc.src), toks(cutp.src, isinstance(cutp.a, (ast.mod, ast.stmt, ast.excepthandler, ast.match_case)))
     if t0 is not None and t1 is not None and t2 is not None:
         tot = t1 + t2
         if tot != t0:
@@ -290,7 +302,16 @@ def progs(tier):
     from .c06 import PROGS
     base = list(PROGRAMS[:_N_SHARED])
     base += [p for p in PROGS if p not in base and p not in PROGRAMS[_N_SHARED:]]
-    return base + [p for p in PROGRAMS[_N_SHARED:] if p not in base]
+    return base + [p for p in PROGRAMS[_N_SHARED:] if p not in base] + EXTRA7
+
+
+EXTRA7 = [  # appended last (positional case ids)
+    # strings spanning several lines inside decorators / defaults / bases of definitions written on one line, in an indented block
+    'class K:\n    @reg("""usage:\n    prog""")\n    def run(self): pass\n\n    @reg(\'a \\\n    b\')\n    class In(B("""x\n      y""")): pass\n'
+    '    def dflt(self, h="""p\n    q"""): return h\n    async def one(self): return """r\n    s"""',
+]
+for _p in EXTRA7:
+    ast.parse(_p)
 
 
 def shards(tier):
